@@ -898,3 +898,85 @@ def rule_argument_count_cases(ctx, rep, rid: str) -> None:
         else:
             rep.bad(rid, key, f"{f.qual} called with {count} argument(s) computes {var} = {_show(got)} where ECMAScript fixes it at {want} ({why}): `[1,2,3].splice()` must leave the array alone and return []", f.loc)
     rep.ok(rid, "argument-count-cases", {"cases": n})
+
+
+# ---- arguments that the specification validates first are validated before anything is returned ---------
+
+# (canonical family builder, script name of the method): why the RangeError for the argument comes before any result
+ARGUMENT_CHECKED_FIRST = {
+    ("_make_string_method", "repeat"): "String.prototype.repeat: 'If n < 0 or n = +inf, throw a RangeError' is step 4, before the string is looked at: \"\".repeat(Infinity) throws",
+    ("_make_number_method", "toFixed"): "Number.prototype.toFixed: the digit count is range-checked (step 4-5) before a non-finite number is answered: NaN.toFixed(101) throws",
+    ("_make_number_method", "toString"): "Number.prototype.toString: the radix is range-checked before NaN and the infinities are answered",
+}
+
+
+def rule_argument_checked_first(ctx, rep, rid: str, families: Tuple[str, ...]) -> None:
+    """For a few methods ECMAScript validates an argument before it looks at the receiver.  In the native, every
+    `if <test on the argument only>: raise RangeError` must then come before every `return`: a result produced
+    earlier (an early exit for an empty receiver, say) lets an invalid argument through for those receivers."""
+    rep.rule(rid, "in the natives listed in ARGUMENT_CHECKED_FIRST, every RangeError test that depends on the argument alone dominates every return (no result is produced before the argument was found valid), and there is at least one such test", floor=1)
+    vmcls = ctx.facts.vm_dispatcher()[0].cls
+    fams = ctx.facts.family_methods()
+    n = 0
+    for (canon, js), why in sorted(ARGUMENT_CHECKED_FIRST.items()):
+        if canon not in families:
+            continue
+        builder = ctx.tree.find_method(vmcls, fams.get(canon, canon))
+        if builder is None:
+            raise AnalysisError(f"{rid}: builder {canon} not found")
+        py = None
+        for d in builder.own_nodes():
+            if isinstance(d, ast.Dict):
+                for k, v in zip(d.keys, d.values):
+                    if isinstance(k, ast.Constant) and k.value == js and isinstance(v, ast.Name):
+                        py = v.id
+        f = next((g for g in ctx.tree.funcs if g.parent is builder and g.name == py), None) if py else None
+        if f is None:
+            raise AnalysisError(f"{rid}: {js} not found in the method table of {canon}")
+        n += 1
+        # names that depend on the arguments only
+        argnames = set(f.params())
+        if f.node.args.vararg is not None:
+            argnames.add(f.node.args.vararg.arg)
+        free = {"math", "UNDEFINED", "NULL", "to_integer", "to_number", "to_string", "len", "int", "float", "abs", "min", "max", "isinstance", "self"}
+        changed = True
+        while changed:
+            changed = False
+            for a in f.own_nodes():
+                if isinstance(a, ast.Assign) and len(a.targets) == 1 and isinstance(a.targets[0], ast.Name) and a.targets[0].id not in argnames:
+                    callees = {id(c.func) for c in ast.walk(a.value) if isinstance(c, ast.Call)}
+                    used = {x.id for x in ast.walk(a.value) if isinstance(x, ast.Name) and id(x) not in callees}
+                    if used and used <= argnames | free and used & argnames:
+                        argnames.add(a.targets[0].id)
+                        changed = True
+        cfg = ctx.facts.cfg(f)
+        guards = []
+        for st in f.own_nodes():
+            if isinstance(st, ast.If) and any(isinstance(b, ast.Raise) and b.exc is not None and "RangeError" in norm(b.exc) for b in st.body):
+                callees = {id(c.func) for c in ast.walk(st.test) if isinstance(c, ast.Call)}
+                used = {x.id for x in ast.walk(st.test) if isinstance(x, ast.Name) and id(x) not in callees}
+                if used <= argnames | free and used & argnames:
+                    guards.append(st)
+        key = f"{canon}.{js}:argument-first"
+        loc = f.loc
+        if not guards:
+            rep.bad(rid, key, f"{f.qual} has no RangeError test that depends on its argument alone ({why})", loc)
+            continue
+        bad = None
+        for g in guards:
+            gn = {cfg.node_of_stmt[id(g)].id} if id(g) in cfg.node_of_stmt else set()
+            for r in cfg.nodes:
+                if r.ast is not None and isinstance(r.ast, ast.Return):
+                    p = cfg.path_avoiding(cfg.entry.id, lambda nd, r=r: nd.id == r.id, gn, None)
+                    if p is not None and gn:
+                        bad = (g, r.ast)
+                        break
+            if bad:
+                break
+        if bad is None:
+            rep.ok(rid, key, {"guards": [f"line {g.lineno}: {short(g.test, 50)}" for g in guards]})
+        else:
+            g, r = bad
+            rep.bad(rid, key, f"{f.qual} can `{short(r, 30)}` (line {r.lineno}) without having passed the argument test `{short(g.test, 50)}` (line {g.lineno}): {why}", f"{f.module.rel}:{r.lineno}")
+    if n == 0:
+        raise AnalysisError(f"{rid}: no listed native in families {families}")
